@@ -199,6 +199,30 @@ def validate_trace(workdir, trace, check, module="ResponderTrace.tla", tag="t", 
         for big in re.finditer(r"(?<![\d.])-?\d{10,}(?![\d.])", f.read()):
             if abs(int(big.group(0))) >= 2 ** 31:
                 raise Infra("trace %s holds the number %s, which does not fit TLC's 32-bit integers" % (trace, big.group(0)))
+    # several instances driven in one process (automata driver, INST k): each instance's events form a trace of
+    # their own - every interface must behave as it would alone - validated one after the other
+    with open(trace) as f:
+        lines = f.readlines()
+    insts = sorted(set(int(m.group(1)) for ln in lines for m in [re.search(r'"inst":(\d+)', ln[:80])] if m))
+    if len(insts) > 1 and not tag.endswith("-inst"):
+        tot = None
+        for k in insts:
+            sub = trace + ".inst%d" % k
+            with open(sub, "w") as f:
+                for ln in lines:
+                    m = re.search(r'"inst":(\d+)', ln[:80])
+                    if m is None or int(m.group(1)) == k:
+                        f.write(ln)
+            v = validate_trace(workdir, sub, check, module=module, tag="%s-%d-inst" % (tag, k), timeout=timeout)
+            if not v["accepted"]:
+                return v
+            os.remove(sub)
+            if tot is None:
+                tot = v
+            else:
+                for key in ("events", "exercised", "states", "generated"):
+                    tot[key] += v[key]
+        return tot
     cfg = os.path.join(workdir, "%s.cfg" % tag)
     write_trace_cfg(cfg, check, primary=PRIMARY[0])
     r = tlc_run(workdir, module, cfg, workers=1, env={"TRACE": trace}, timeout=timeout)
